@@ -41,9 +41,11 @@ type CommonPrefix struct {
 }
 
 // IsS3 checks if the response is from an S3 server
+// (a bucket listing is XML, but not XHTML: that is a web page the store serves)
 func IsS3(URL *models.URL) bool {
 	return utils.StringContainsSliceElements(URL.GetResponse().Header.Get("Server"), validS3Servers) &&
-		strings.Contains(URL.GetResponse().Header.Get("Content-Type"), "xml")
+		strings.Contains(URL.GetResponse().Header.Get("Content-Type"), "xml") &&
+		!isContentType(URL.GetResponse().Header.Get("Content-Type"), "application/xhtml+xml")
 }
 
 // S3 decides which helper to call based on the query param: old style (no list-type=2) vs. new style (list-type=2)
